@@ -19,7 +19,7 @@ import (
 // the check worker, the control reader (SetRunningStatus), reloads (Stop) and
 // work connections (InWorkConn): every access holds mu (obligations lock.*).
 //
-//verif:guarded Wrapper mu WorkingStatus lastSendStartMsg lastStartErr
+//verif:guarded Wrapper mu WorkingStatus.Phase WorkingStatus.Err WorkingStatus.RemoteAddr lastSendStartMsg lastStartErr
 //verif:guarded Manager mu proxies
 
 // Unknown code reached from the wrapper. Assumed frames (listed in the
@@ -29,7 +29,7 @@ import (
 //
 //verif:fieldfn Wrapper handler
 func verifSpec_handler(payload any) error {
-	verif.HavocExcept("H.client.proxy.Wrapper.", "H.client.proxy.Manager.", "ChClosed@H.client.proxy.Wrapper.", "Md.map_LstringR_Pclient.proxy.Wrapper", "Mv.map_LstringR_Pclient.proxy.Wrapper", "Ml.map_LstringR_Pclient.proxy.Wrapper")
+	verif.HavocExcept("H.client.proxy.Wrapper.", "H.client.proxy.Manager.", "ChClosed@H.client.proxy.Wrapper.", "map_LstringR_Pclient.proxy.Wrapper", "H.client.event.", "H.pkg.msg.")
 	return verif.Any[error]()
 }
 
@@ -72,7 +72,6 @@ func verifIsClose(p any) bool { _, ok := p.(*event.CloseProxyPayload); return ok
 //verif:contract (*~/client/proxy.Wrapper).SetRunningStatus
 //verif:props C19
 func verif_SetRunningStatus(pw *Wrapper, remoteAddr string, respErr string) {
-	verif.Requires(pw.pxy != nil && pw.handler != nil, "constructed_by_NewWrapper")
 	phase0, err0, addr0 := pw.Phase, pw.Err, pw.RemoteAddr
 	verif.ResetEvents()
 	err := pw.SetRunningStatus(remoteAddr, respErr)
@@ -102,8 +101,7 @@ func verif_SetRunningStatus(pw *Wrapper, remoteAddr string, respErr string) {
 //verif:contract (*~/client/proxy.Wrapper).Stop
 //verif:props C19
 func verif_Stop(pw *Wrapper) {
-	verif.Requires(pw.pxy != nil && pw.handler != nil && pw.closeCh != nil && pw.healthNotifyCh != nil, "constructed_by_NewWrapper")
-	verif.Requires(!verif.Closed(pw.closeCh) && !verif.Closed(pw.healthNotifyCh), "stopped_at_most_once")
+	verif.Requires(pw.closeCh != nil && pw.healthNotifyCh != nil && !verif.Closed(pw.closeCh) && !verif.Closed(pw.healthNotifyCh), "constructed_and_stopped_at_most_once")
 	name := pw.Name
 	verif.ResetEvents()
 	pw.Stop()
